@@ -99,7 +99,7 @@ def main():
                 "text": "Deductive proof, for all inputs and all loop iterations, of the function contracts tagged with this property on the real source of /repo (go/ssa lowering on every run). Decided: " + decided,
                 "design_ref": "DESIGN.md section 6 (" + i + ") and section 10",
             },
-            "level_note": "Tiers: quick = every obligation of the functions tagged with this property, 10 s per obligation (one retry with 90 s); thorough = 60 s per obligation and additionally every non-trusted contracted function those functions (transitively) call, so that the contracts relied on at call sites are re-proved in the same run. Not decided / assumed: " + outside + " Trusted base: go/ssa lowering, the govc VC generator, z3/cvc5, the trusted dependency contracts listed in the evidence file; sequential reasoning; signed arithmetic mathematical unless 'check overflow'.",
+            "level_note": "Tiers: quick = every obligation of the functions tagged with this property, 15 s per obligation (undecided ones get one retry with 90 s); thorough = 60 s per obligation and additionally every non-trusted contracted function those functions (transitively) call, so that the contracts relied on at call sites are re-proved in the same run. Not decided / assumed: " + outside + " Trusted base: go/ssa lowering, the govc VC generator, z3/cvc5, the trusted dependency contracts listed in the evidence file; sequential reasoning; signed arithmetic mathematical unless 'check overflow'.",
             "technique": TECH,
         })
     na = [{"property_id": i, "reason": NA[i]} for i in ids if i not in CLAIMS]
